@@ -13,7 +13,12 @@ RULE = ('Hypothesis draws (document, context node + list, variable bindings) and
         'absolute path, filter, each core function incl. zero-argument forms, extension call). The six public XPath::execute overloads are called '
         'on the same compiled expression and context. Oracle (no model): bool overload = G->boolean(), double = G->num() bit-for-bit, string = '
         'G->str() (all three str() forms and stringLength), character events = G->str(), node-list overload = G->nodeset() as the same sequence; '
-        'errors must coincide. Non-trivial: every case (the matrix cell top-op x overload is reported; all cells must be > 0). '
+        'errors must coincide. In a third of these cases 1-3 prior expressions are evaluated, converted and released on the same execution context '
+        'first (recycled objects). A quarter of all cases are XSLT consumer cases: one expression E is placed in xsl:if/xsl:when test, xsl:value-of, an '
+        'AVT, text and number sort keys, xsl:number value, a numeric function argument, a variable and a with-param, for-each/apply-templates/copy-of '
+        'select, each next to the same consumer fed boolean(E) / string(E) / number(E) / a variable bound to E, for every node of a drawn context '
+        'selection, under a drawn xsl:strip-space; both members of each pair must serialize identically. Non-trivial: every XPath-level case (the '
+        'matrix cell top-op x overload is reported; all cells must be > 0); an XSLT case when >= 1 context node was processed. '
         'distinct = distinct (expression, document, context).' % len(gen_xpath.TOP_OPS))
 ASSUMPTIONS = ['the generic XObjectPtr result with the standard conversions is the definition (C02 checks that value against the Recommendation)']
 
@@ -46,13 +51,140 @@ def cases(draw):
             'vars': draw(gen_xpath.bindings()), 'docform': draw(st.sampled_from(['native', 'native', 'xerces'])), 'prior': draw(xpcase.priors())}
 
 
+@st.composite
+def xslt_cases(draw):
+    """the 'Consequently ...' clause: the same expression placed in every kind of XSLT consumer"""
+    k = draw(st.sampled_from(['ns', 'ns', 'num', 'str', 'bool']))
+    e = draw(gen_xpath.expressions(2, k))
+    strip = draw(st.sampled_from([None, None, '*', 'a b', 'p:*']))
+    xml = draw(gen_xml.documents(astral=False, max_nodes=25, ws_rich=strip is not None))
+    return {'mode': 'xslt', 'xml': xml, 'expr': e['expr'], 'kind': k, 'ntok': e['ntok'], 'strip': strip,
+            'ctxsel': draw(st.sampled_from(['/', '/*', '//*', '//node()', '//@*', '//*[last()]', '(//node()|//@*)[position() mod 3 = 1]', '//text()'])),
+            'vars': draw(gen_xpath.bindings())}
+
+
 def strategy(ctx):
     load_flags(ctx)
-    return cases()
+    return st.one_of(cases(), cases(), cases(), xslt_cases())
+
+
+XSL = 'http://www.w3.org/1999/XSL/Transform'
+
+
+def _num_literal(x):
+    if x != x:
+        return '(0 div 0)'
+    if x in (float('inf'), float('-inf')):
+        return '(1 div 0)' if x > 0 else '(-1 div 0)'
+    if x == 0 and str(x).startswith('-'):
+        return '(-0)'
+    return ('%.10f' % x).rstrip('0').rstrip('.') if abs(x) < 1e15 else '%d' % x
+
+
+def _nodeset_select(idx):
+    if not idx:
+        return '/..'
+    return '(//node()|//@*)[%s]' % ' or '.join('position()=%d' % (i % 40 + 1) for i in idx)
+
+
+def xslt_stylesheet(case):
+    """every consumer of the expression E next to the same consumer fed with the explicit conversion of E.  Pairs:
+    if / when: E vs boolean(E); value-of, AVT: E vs string(E); xsl:number value, numeric function argument, number sort key:
+    E vs number(E); text sort key: E vs string(E); a variable bound to E observed in each way vs the conversions of E;
+    for a node-set E: for-each select=E (node-list overload) vs for-each over a variable bound to E."""
+    E = case['expr']
+    esc = E.replace('&', '&amp;').replace('<', '&lt;').replace('"', '&quot;').replace('\n', '&#10;').replace('\t', '&#9;')
+    v = case['vars']
+    decl = []
+    for n in ('n1', 'n2'):
+        decl.append('<xsl:variable name="%s" select="%s"/>' % (n, _num_literal(float(v[n]))))
+    for n in ('s1', 's2'):
+        decl.append('<xsl:variable name="%s" select="\'%s\'"/>' % (n, v[n]))
+    decl.append('<xsl:variable name="b1" select="%s"/>' % ('true()' if v['b1'] else 'false()'))
+    decl.append('<xsl:variable name="ns1" select="%s"/>' % _nodeset_select(v['ns1']))
+    decl.append('<xsl:variable name="ns2" select="%s"/>' % _nodeset_select(v['ns2']))
+    decl.append('<xsl:variable name="ns3" select="%s"/>' % ('$ns1' if v['ns3'] is None else '/..'))
+    nsd = ' '.join('xmlns:%s="%s"' % kv for kv in xpcase.NSMAP.items())
+
+    def pair(k, a, b):
+        return '<p k="%s"><a>%s</a><b>%s</b></p>' % (k, a, b)
+    body = [
+        pair('if', '<xsl:if test="%s">T</xsl:if>' % esc, '<xsl:if test="boolean(%s)">T</xsl:if>' % esc),
+        pair('when', '<xsl:choose><xsl:when test="%s">T</xsl:when><xsl:otherwise>F</xsl:otherwise></xsl:choose>' % esc,
+             '<xsl:choose><xsl:when test="boolean(%s)">T</xsl:when><xsl:otherwise>F</xsl:otherwise></xsl:choose>' % esc),
+        pair('value-of', '<xsl:value-of select="%s"/>' % esc, '<xsl:value-of select="string(%s)"/>' % esc),
+        pair('var-string', '<xsl:variable name="v" select="%s"/><xsl:value-of select="$v"/>' % esc, '<xsl:value-of select="string(%s)"/>' % esc),
+        pair('var-boolean', '<xsl:variable name="v" select="%s"/><xsl:if test="$v">T</xsl:if>' % esc, '<xsl:if test="boolean(%s)">T</xsl:if>' % esc),
+        pair('var-number', '<xsl:variable name="v" select="%s"/><xsl:value-of select="$v + 0"/>' % esc, '<xsl:value-of select="number(%s) + 0"/>' % esc),
+        pair('with-param', '<xsl:call-template name="show"><xsl:with-param name="x" select="%s"/></xsl:call-template>' % esc,
+             '<xsl:value-of select="string(%s)"/>|<xsl:value-of select="boolean(%s)"/>|<xsl:value-of select="number(%s)"/>' % (esc, esc, esc)),
+        pair('numeric-arg', '<xsl:value-of select="substring(\'abcdefghijklmnopqrstuvwxyz\', %s, 2)"/>' % esc,
+             '<xsl:value-of select="substring(\'abcdefghijklmnopqrstuvwxyz\', number(%s), 2)"/>' % esc),
+        pair('sort-text', '<xsl:for-each select="//*"><xsl:sort select="%s"/><xsl:value-of select="generate-id()"/>,</xsl:for-each>' % esc,
+             '<xsl:for-each select="//*"><xsl:sort select="string(%s)"/><xsl:value-of select="generate-id()"/>,</xsl:for-each>' % esc),
+        pair('sort-number', '<xsl:for-each select="//*"><xsl:sort select="%s" data-type="number"/><xsl:value-of select="generate-id()"/>,</xsl:for-each>' % esc,
+             '<xsl:for-each select="//*"><xsl:sort select="number(%s)" data-type="number"/><xsl:value-of select="generate-id()"/>,</xsl:for-each>' % esc),
+    ]
+    if '{' not in E and '}' not in E:
+        body.append('<p k="avt"><a><x v="{%s}"/></a><b><x v="{string(%s)}"/></b></p>' % (esc, esc))
+    if case['kind'] == 'ns':
+        body.append(pair('for-each', '<xsl:for-each select="%s"><xsl:value-of select="generate-id()"/>,</xsl:for-each>' % esc,
+                         '<xsl:variable name="v" select="%s"/><xsl:for-each select="$v"><xsl:value-of select="generate-id()"/>,</xsl:for-each>' % esc))
+        body.append(pair('apply-templates', '<xsl:apply-templates select="%s" mode="id"/>' % esc,
+                         '<xsl:variable name="v" select="%s"/><xsl:apply-templates select="$v" mode="id"/>' % esc))
+        body.append(pair('copy-of', '<xsl:variable name="c"><xsl:copy-of select="%s"/></xsl:variable><xsl:value-of select="string($c)"/>' % esc,
+                         '<xsl:variable name="v" select="%s"/><xsl:variable name="c"><xsl:copy-of select="$v"/></xsl:variable><xsl:value-of select="string($c)"/>' % esc))
+    # xsl:number value= is last: a value it cannot format ends the transformation in some configurations
+    num = pair('number-value', '<xsl:number value="%s"/>' % esc, '<xsl:number value="number(%s)"/>' % esc)
+    return ('<xsl:stylesheet version="1.0" xmlns:xsl="%s" %s exclude-result-prefixes="%s">' % (XSL, nsd, ' '.join(xpcase.NSMAP)) +
+            '<xsl:output method="xml" omit-xml-declaration="yes"/>' + ('<xsl:strip-space elements="%s"/>' % case['strip'] if case.get('strip') else '') +
+            ''.join(decl) +
+            '<xsl:template name="show"><xsl:param name="x"/><xsl:value-of select="$x"/>|<xsl:value-of select="boolean($x)"/>|<xsl:value-of select="number($x)"/></xsl:template>'
+            '<xsl:template match="node()|@*" mode="id"><xsl:value-of select="generate-id()"/>,</xsl:template>'
+            '<xsl:template match="/"><o><xsl:for-each select="%s"><c>%s%s</c></xsl:for-each></o></xsl:template></xsl:stylesheet>'
+            % (case['ctxsel'], ''.join(body), num))
+
+
+def check_xslt(ctx, case):
+    xsl = xslt_stylesheet(case)
+    from ..drv import DriverCrash, crash_signature
+    try:
+        r = ctx.drv.call('transform', xsl=xsl.encode('utf-8'), xml=case['xml'].encode('utf-8'))
+    except DriverCrash as e:
+        # a recorded Debug-configuration assertion (fallback: ndebug) is answered by the NDEBUG sanitizer build (DESIGN 2.7 point 6)
+        kf = ctx.findings.match_any('crash:' + crash_signature(e.stderr))
+        if kf is None or kf.get('fallback') != 'ndebug':
+            raise
+        ctx.known_seen[kf['id']] += 1
+        ctx.counters['fallback:ndebug'] += 1
+        r = ctx.drv_flavor('ndebug').call('transform', xsl=xsl.encode('utf-8'), xml=case['xml'].encode('utf-8'))
+    if r.gets('rc') != '0':
+        ctx.counters['xslt:transformation-fails'] += 1
+        ctx.note({'x': case['xml'], 'e': case['expr'], 'm': 'xslt', 's': case['ctxsel']}, False, ['mode:xslt', 'xslt:fails'])
+        return None
+    out = (r.get('out') or b'').decode('utf-8', 'replace')
+    pairs = []
+    for m in re.finditer(r'<p k="([^"]+)">(<a/>|<a>.*?</a>)(<b/>|<b>.*?</b>)</p>', out, re.S):
+        pairs.append((m.group(1), '' if m.group(2) == '<a/>' else m.group(2)[3:-4], '' if m.group(3) == '<b/>' else m.group(3)[3:-4]))
+    nctx = out.count('<c>') + out.count('<c/>')
+    if nctx and len(pairs) != nctx * (11 + ('{' not in case['expr'] and '}' not in case['expr']) + 3 * (case['kind'] == 'ns')):
+        raise RuntimeError('harness: cannot parse the consumer pairs: %r' % out[:300])
+    ctx.note({'x': case['xml'], 'e': case['expr'], 'm': 'xslt', 's': case['ctxsel']}, nctx >= 1,
+             ['mode:xslt', 'xslt-kind:' + case['kind'], 'xslt-contexts:%s' % ('0' if nctx == 0 else '1' if nctx == 1 else '2+'),
+              'xslt-strip:%s' % ('yes' if case.get('strip') else 'no')],
+             sample_text={'expr': case['expr'], 'ctxsel': case['ctxsel'], 'contexts': nctx, 'pairs': len(pairs)})
+    for k, a, b in pairs:
+        ctx.counters['xslt-consumer:' + k] += 1
+        if a != b:
+            return {'what': 'xslt-consumer', 'op': k, 'overload': 'xslt', 'gtype': case['kind'], 'expr': case['expr'], 'direct': a[:200], 'converted': b[:200],
+                    'ctxsel': case['ctxsel']}
+    return None
 
 
 def check(ctx, case):
     load_flags(ctx)
+    if case.get('mode') == 'xslt':
+        return check_xslt(ctx, case)
     try:
         prep = Prepared(case)
     except ValueError:
